@@ -512,15 +512,22 @@ impl<'a, T: std::fmt::Debug> WaitingState<'a, T> {
         }
         self.prev_queue_len = queued.len() as u8;
         let mut skip_timeout = false;
+        // What is queued behind the key's own release happened after the key was let go. It cannot
+        // turn a tap that is already over into a hold.
+        let num_queued_while_held = queued
+            .iter()
+            .position(|s| self.is_corresponding_release(&s.event))
+            .unwrap_or(queued.len());
+        let queued_while_held = || queued.iter().take(num_queued_while_held);
         match cfg {
             HoldTapConfig::Default => (),
             HoldTapConfig::HoldOnOtherKeyPress => {
-                if queued.iter().any(|s| s.event.is_press()) {
+                if queued_while_held().any(|s| s.event.is_press()) {
                     return Some(WaitingAction::Hold);
                 }
             }
             HoldTapConfig::PermissiveHold => {
-                let mut queued = queued.iter();
+                let mut queued = queued_while_held();
                 while let Some(q) = queued.next() {
                     if q.event.is_press() {
                         let (i, j) = q.event.coord();
@@ -532,7 +539,7 @@ impl<'a, T: std::fmt::Debug> WaitingState<'a, T> {
                 }
             }
             HoldTapConfig::Custom(func) => {
-                let (waiting_action, local_skip) = (func)(QueuedIter(queued.iter()));
+                let (waiting_action, local_skip) = (func)(QueuedIter(queued_while_held()));
                 if waiting_action.is_some() {
                     return waiting_action;
                 }
@@ -1003,7 +1010,7 @@ impl OneShotState {
 ///
 /// Events can be retrieved by iterating over this struct and calling [Queued::event].
 #[derive(Clone)]
-pub struct QueuedIter<'a>(arraydeque::Iter<'a, Queued>);
+pub struct QueuedIter<'a>(core::iter::Take<arraydeque::Iter<'a, Queued>>);
 
 impl<'a> Iterator for QueuedIter<'a> {
     type Item = &'a Queued;
